@@ -903,31 +903,41 @@ def formal_name(rng):
             return rng.choice("GHIJKLMNOPQRSTUVWXYZ")           # the 18th .. 37th candidate
         return rng.choice(B36[1:]) + "".join(rng.choice(B36) for _ in range(rng.randrange(1, 3)))
 
-    def nested_items():
+    def targs(d):
+        """optional <targs> of the general grammar (theorem C13_roundtrip_general_partial)"""
+        if d > 3 or rng.random() < 0.65:
+            return ""
+        out = "I"
+        for _ in range(rng.randrange(0, 4)):
+            if rng.random() < 0.25:
+                out += "L" + rng.choice(BUILTIN) + str(rng.choice([1, 2, 3, 7, 10, 16, 255, 4096])) + "E"
+            else:
+                out += ty(d + 1)
+        return out + "E"
+
+    def nested_items(d):
         out = ""
         if rng.random() < 0.5:
-            out += "S" + seq() + "_"
+            out += "S" + seq() + "_" + targs(d)
         for _ in range(rng.randrange(0 if out else 1, 4)):
-            out += src(ident()) if rng.random() < 0.85 else "S" + seq() + "_"
+            out += (src(ident()) if rng.random() < 0.85 else "S" + seq() + "_") + targs(d)
         return out
 
-    def ty():
+    def ty(d=0):
         q = "".join(rng.choice("rVKPROCG") for _ in range(rng.choice([0, 0, 0, 1, 1, 2, 3])))
         k = rng.random()
         if k < 0.35:
             return q + rng.choice(BUILTIN)
-        if k < 0.65:
-            return q + "S" + seq() + "_"
+        if k < 0.6:
+            return q + "S" + seq() + "_" + targs(d)
         if k < 0.8:
-            return q + src(ident())
-        return q + "N" + nested_items() + "E"
+            return q + src(ident()) + targs(d)
+        return q + "N" + nested_items(d) + "E"
     quals = rng.choice(["", "", "", "K", "V", "R", "O", "KR", "KO", "VK", "VKO"])
     scopes = [ident() for _ in range(rng.randrange(1, 5))]
     enc = ""
     for sc in scopes:
-        enc += src(sc)
-        if rng.random() < 0.25:
-            enc += "I" + "".join(rng.choice(BUILTIN) for _ in range(rng.randrange(1, 4))) + "E"
+        enc += src(sc) + targs(0)
     k = rng.random()
     name = "::".join(scopes)
     if k < 0.15:
